@@ -13,7 +13,7 @@ from .nd import (ndarray, RecArray, RecScalar, RecDtype, dtype, array, asarray, 
                  bool_, int8, int16, int32, int64, uint8, uint16, uint32, uint64, float32, float64, object_, str_,
                  bytes_, intp, int_, float_, generic, number, integer, signedinteger, unsignedinteger, floating,
                  broadcast, broadcast_to, take_axis, cast_list, cast_scalar, truth, le, lt, eq_, fresh_real,
-                 from_real, infer_dtype, scalar_dtype, _prod, _py)
+                 from_real, infer_dtype, scalar_dtype, _prod, _py, isnd)
 
 _pyint, _pyfloat, _pybool = builtins.int, builtins.float, builtins.bool
 
@@ -27,14 +27,14 @@ recarray = RecArray
 def _a(x):
     if isinstance(x, _rnp.ndarray):
         return from_real(x)
-    return x if isinstance(x, ndarray) else asarray(x)
+    return x if isnd(x) else asarray(x)
 
 
 # ---- creation -----------------------------------------------------------------
 def _shape(n):
     if isinstance(n, (_pyint, SInt, _rnp.integer)):
         return (n.__index__(),)
-    if isinstance(n, ndarray):
+    if isnd(n):
         return tuple(x.__index__() for x in n._d)
     return tuple(x.__index__() for x in n)
 
@@ -113,7 +113,7 @@ def eye(n):
 
 # ---- stacking -----------------------------------------------------------------
 def concatenate(parts, axis=0):
-    parts = [p if isinstance(p, ndarray) else asarray(p) for p in parts]
+    parts = [p if isnd(p) else asarray(p) for p in parts]
     if builtins.any(isinstance(p, RecArray) for p in parts):
         if not builtins.all(isinstance(p, RecArray) for p in parts):
             raise ShimUnsupported("concatenate record with plain array")
@@ -157,7 +157,7 @@ def concatenate(parts, axis=0):
 
 
 def _atleast(p, n):
-    p = p if isinstance(p, ndarray) else asarray(p)
+    p = p if isnd(p) else asarray(p)
     if isinstance(p, RecArray):
         return p
     if isinstance(p, RecScalar):
@@ -216,7 +216,7 @@ class _CClass:
         for c in k:
             if isinstance(c, slice):
                 raise ShimUnsupported("np.c_ with slice")
-            c = asarray(c) if not isinstance(c, ndarray) else c
+            c = asarray(c) if not isnd(c) else c
             if c.ndim == 0:
                 c = ndarray(c._d, (1, 1), c.dtype)
             elif c.ndim == 1:
@@ -235,7 +235,7 @@ class _RClass:
         for c in k:
             if isinstance(c, slice):
                 raise ShimUnsupported("np.r_ with slice")
-            c = asarray(c) if not isinstance(c, ndarray) else c
+            c = asarray(c) if not isnd(c) else c
             if c.ndim == 0:
                 c = ndarray(c._d, (1,), c.dtype)
             parts.append(c)
@@ -427,7 +427,7 @@ def delete(a, idx, axis=None):
         ids = list(range(*idx.indices(n)))
     elif isinstance(idx, (list, tuple, ndarray, _rnp.ndarray)):
         ia = _a(idx) if not isinstance(idx, (list, tuple)) else array(list(idx))
-        if isinstance(idx, tuple) and len(idx) == 1 and isinstance(idx[0], ndarray):
+        if isinstance(idx, tuple) and len(idx) == 1 and isnd(idx[0]):
             ia = idx[0]
         if ia.dtype.kind == "b":
             if ia.size != n:
@@ -833,9 +833,9 @@ def _round1(x):
 
 def round(a, decimals=0):
     if decimals != 0:
-        if isinstance(a, ndarray) and builtins.any(isinstance(x, Sym) for x in a._d):
+        if isnd(a) and builtins.any(isinstance(x, Sym) for x in a._d):
             raise ShimUnsupported("round with decimals on symbolic values")
-        if isinstance(a, ndarray):
+        if isnd(a):
             return from_real(_rnp.round(_rnp.array(a.tolist()), decimals))
         return _rnp.round(a, decimals)
     return _ew1(_round1)(a)
@@ -913,14 +913,14 @@ log10 = _ew1(lambda x: math.log10(nd._num(x)) if not isinstance(x, Sym) else (_ 
 
 def maximum(a, b):
     f = lambda x, y: ite(le(y, x), x, y)
-    if isinstance(a, ndarray) or isinstance(b, ndarray):
+    if isnd(a) or isnd(b):
         return _a(a)._ew(b, f)
     return f(_py(a), _py(b))
 
 
 def minimum(a, b):
     f = lambda x, y: ite(le(x, y), x, y)
-    if isinstance(a, ndarray) or isinstance(b, ndarray):
+    if isnd(a) or isnd(b):
         return _a(a)._ew(b, f)
     return f(_py(a), _py(b))
 
@@ -1041,7 +1041,7 @@ class Deg:
 
 
 def deg2rad(x):
-    if isinstance(x, ndarray):
+    if isnd(x):
         if builtins.any(isinstance(v, Sym) for v in x._d):
             return ndarray([Deg(v) if isinstance(v, Sym) else Deg(v) for v in x._d], x.shape, object_)
         return ndarray([math.radians(v) for v in x._d], x.shape, float64)
@@ -1082,13 +1082,13 @@ def _trig1(x, which):
 
 
 def cos(x):
-    if isinstance(x, ndarray):
+    if isnd(x):
         return ndarray([_trig1(v, 0) for v in x._d], x.shape, float64)
     return _trig1(_py(x), 0)
 
 
 def sin(x):
-    if isinstance(x, ndarray):
+    if isnd(x):
         return ndarray([_trig1(v, 1) for v in x._d], x.shape, float64)
     return _trig1(_py(x), 1)
 
